@@ -179,7 +179,7 @@ class Program:
                 if f.crate != crate or f.dk == 'Closure' or not f.has_body or f.impl_trait or f.vis == 'Public':
                     continue
                 a = (f.impl_adt or '').split('::')[-1] or None
-                if a != adt:
+                if a != adt and not (adt is None and crate == 'maybenot_ffi'):
                     continue
                 try:
                     if pred(f):
@@ -188,7 +188,7 @@ class Program:
                     pass
             if len(cands) != 1:
                 continue  # the rules will fail closed on the missing anchor
-            self._rename(cands[0], canon)
+            self._rename(cands[0], canon, as_free=(adt is None))
         # private functions of the pinned tree without a hand-written role: a missing name is matched with the
         # single unknown private function of the same crate / impl that has the identical signature
         from . import mirinline
@@ -205,8 +205,12 @@ class Program:
                 self._rename(cands[0], idt[3])
                 present.add(idt)
 
-    def _rename(self, f, canon):
+    def _rename(self, f, canon, as_free=False):
         old = f.name
+        if as_free:
+            # a free function of the pinned tree that became an inherent method (`convert_event(e)` -> `e.into_trigger_event()`)
+            f.impl_adt = None
+            f.impl_self = None
         self.renamed[f.key] = (old, canon)
         f.name = canon
         if f.path.endswith('::' + old):
